@@ -68,3 +68,35 @@ void good_ptrscale (int *block, int blocksize, int k)
 {	memset (((char *) block) + k, 0, blocksize - k) ;
 	memset (block + k, 0, (blocksize - k) * sizeof (int)) ;
 }
+
+/* WIDE-PRODUCT: a block count computed from a 64-bit length, multiplied in int and widened afterwards */
+typedef struct { sf_count_t datalength ; sf_count_t frames ; int blocksize ; int samplesperblock ; int blocks ; } WP ;
+void bad_wideproduct (WP *w)
+{	w->blocks = w->datalength / w->blocksize ;
+	w->frames = w->samplesperblock * w->blocks ;
+}
+void good_wideproduct (WP *w)
+{	w->blocks = w->datalength / w->blocksize ;
+	w->frames = (sf_count_t) w->samplesperblock * w->blocks ;
+}
+
+/* COUNT-NARROW: the 64-bit request handed to an int parameter / kept in an int */
+int fx_block (short *ptr, int len) ;
+sf_count_t bad_countnarrow (P *p, short *ptr, sf_count_t len)
+{	int total ;
+	total = fx_block (ptr, len) ;
+	return total ;
+}
+sf_count_t good_countnarrow (P *p, short *ptr, sf_count_t len)
+{	sf_count_t total = 0 ;
+	int n, count ;
+	while (len > 0)
+	{	n = (len > 0x10000000) ? 0x10000000 : (int) len ;
+		count = fx_block (ptr + total, n) ;
+		total += count ;
+		len -= count ;
+		if (count != n)
+			break ;
+		}
+	return total ;
+}
